@@ -1,5 +1,6 @@
 use either::Either;
 use std::{
+    convert::TryFrom,
     cell::RefCell,
     cell::RefMut,
     cmp::Ordering,
@@ -50,7 +51,33 @@ impl<R: RealNumberInternalTrait> Display for Number<R> {
     }
 }
 
+fn gcd(mut a: i128, mut b: i128) -> i128 {
+    while b != 0 {
+        let r = a % b;
+        a = b;
+        b = r;
+    }
+    a.abs()
+}
+
 impl<R: RealNumberInternalTrait> Number<R> {
+    /// The exact number `numerator / denominator` (denominator not 0): in lowest terms with a
+    /// positive denominator, an integer when the denominator is 1. When a component does not
+    /// fit the exact representation the result is inexact - never a different exact number.
+    pub fn exact_ratio(numerator: i128, denominator: i128) -> Self {
+        let divisor = gcd(numerator, denominator);
+        let (mut n, mut d) = (numerator / divisor, denominator / divisor);
+        if d < 0 {
+            n = -n;
+            d = -d;
+        }
+        match (i32::try_from(n), i32::try_from(d)) {
+            (Ok(n), Ok(1)) => Number::Integer(n),
+            (Ok(n), Ok(d)) => Number::Rational(n, d),
+            _ => Number::Real(R::from(n as f64 / d as f64).unwrap()),
+        }
+    }
+
     pub(crate) fn exact_eqv(&self, other: &Self) -> bool {
         match (self, other) {
             (Number::Integer(a), Number::Integer(b)) => a.eq(b),
@@ -137,10 +164,11 @@ impl<R: RealNumberInternalTrait> std::ops::Add<Number<R>> for Number<R> {
     type Output = Number<R>;
     fn add(self, rhs: Number<R>) -> Number<R> {
         match upcast_oprands((self, rhs)) {
-            NumberBinaryOperand::Integer(a, b) => Number::Integer(a + b),
+            NumberBinaryOperand::Integer(a, b) => Number::exact_ratio(a as i128 + b as i128, 1),
             NumberBinaryOperand::Real(a, b) => Number::Real(a + b),
             NumberBinaryOperand::Rational(a1, a2, b1, b2) => {
-                Number::Rational(a1 * b2 + a2 * b1, a2 * b2)
+                let (a1, a2, b1, b2) = (a1 as i128, a2 as i128, b1 as i128, b2 as i128);
+                Number::exact_ratio(a1 * b2 + a2 * b1, a2 * b2)
             }
         }
     }
@@ -150,10 +178,11 @@ impl<R: RealNumberInternalTrait> std::ops::Sub<Number<R>> for Number<R> {
     type Output = Number<R>;
     fn sub(self, rhs: Number<R>) -> Number<R> {
         match upcast_oprands((self, rhs)) {
-            NumberBinaryOperand::Integer(a, b) => Number::Integer(a - b),
+            NumberBinaryOperand::Integer(a, b) => Number::exact_ratio(a as i128 - b as i128, 1),
             NumberBinaryOperand::Real(a, b) => Number::Real(a - b),
             NumberBinaryOperand::Rational(a1, a2, b1, b2) => {
-                Number::Rational(a1 * b2 - a2 * b1, a2 * b2)
+                let (a1, a2, b1, b2) = (a1 as i128, a2 as i128, b1 as i128, b2 as i128);
+                Number::exact_ratio(a1 * b2 - a2 * b1, a2 * b2)
             }
         }
     }
@@ -163,9 +192,11 @@ impl<R: RealNumberInternalTrait> std::ops::Mul<Number<R>> for Number<R> {
     type Output = Number<R>;
     fn mul(self, rhs: Number<R>) -> Number<R> {
         match upcast_oprands((self, rhs)) {
-            NumberBinaryOperand::Integer(a, b) => Number::Integer(a * b),
+            NumberBinaryOperand::Integer(a, b) => Number::exact_ratio(a as i128 * b as i128, 1),
             NumberBinaryOperand::Real(a, b) => Number::Real(a * b),
-            NumberBinaryOperand::Rational(a1, a2, b1, b2) => Number::Rational(a1 * b1, a2 * b2),
+            NumberBinaryOperand::Rational(a1, a2, b1, b2) => {
+                Number::exact_ratio(a1 as i128 * b1 as i128, a2 as i128 * b2 as i128)
+            }
         }
     }
 }
@@ -176,17 +207,17 @@ impl<R: RealNumberInternalTrait> std::ops::Div<Number<R>> for Number<R> {
         match upcast_oprands((self, rhs)) {
             NumberBinaryOperand::Integer(a, b) => {
                 check_division_by_zero(b)?;
-                match a % b {
-                    0 => Ok(Number::Integer(a / b)),
-                    _ => Ok(Number::Rational(a, b)),
-                }
+                Ok(Number::exact_ratio(a as i128, b as i128))
             }
             NumberBinaryOperand::Real(a, b) => Ok(Number::Real(a / b)),
             NumberBinaryOperand::Rational(a1, a2, b1, b2) => {
                 check_division_by_zero(b1)?;
                 check_division_by_zero(a2)?;
                 check_division_by_zero(b2)?;
-                Ok(Number::Rational(a1 * b2, a2 * b1))
+                Ok(Number::exact_ratio(
+                    a1 as i128 * b2 as i128,
+                    a2 as i128 * b1 as i128,
+                ))
             }
         }
     }
@@ -195,9 +226,9 @@ impl<R: RealNumberInternalTrait> std::ops::Div<Number<R>> for Number<R> {
 impl<R: RealNumberInternalTrait> Number<R> {
     pub fn abs(self) -> Number<R> {
         match self {
-            Number::Integer(num) => Number::Integer(num.abs()),
+            Number::Integer(num) => Number::exact_ratio((num as i128).abs(), 1),
             Number::Real(num) => Number::Real(num.abs()),
-            Number::Rational(a, b) => Number::Rational(a.abs(), b.abs()),
+            Number::Rational(a, b) => Number::exact_ratio((a as i128).abs(), (b as i128).abs()),
         }
     }
 
